@@ -48,6 +48,8 @@ def sig_of(v):
     op = v.get("op")
     if op == "handle":
         parts = [v.get("prop"), what, "%s.%s" % (st.get("t"), st.get("k"))]
+        if what == "permitted-request-not-executed":
+            parts.append("reply-%s" % st.get("reply"))
         if what == "effect-without-privilege":
             parts.append("+".join(sorted(d.get("changed", []))))
         return "/".join(str(x) for x in parts)
